@@ -287,7 +287,9 @@ Lemma opt_regex_field_wf f v st : wf_err (opt_regex_field f v st).
 Proof. unfold opt_regex_field. destruct v; [apply regex_field_wf|exact I]. Qed.
 Lemma unsupported_wf n p : wf_err (unsupported n p).
 Proof. exact I. Qed.
-#[local] Hint Resolve regex_field_wf opt_regex_field_wf unsupported_wf : wfdb.
+Lemma reserved_field_wf f v names : wf_err (reserved_field f v names).
+Proof. unfold reserved_field. destruct v as [x|]; [destruct (mem x names); [apply wf_leaf|exact I]|exact I]. Qed.
+#[local] Hint Resolve regex_field_wf opt_regex_field_wf unsupported_wf reserved_field_wf : wfdb.
 
 (** the explicit construction [Some (Group [] [Leaf m])] *)
 Lemma v_version_wf B i : wf_err (v_version B i).
